@@ -1112,3 +1112,20 @@ pub proof fn lemma_jumps_kept(o: &Compiler, s: &Compiler, f: &Compiler, pos: int
     lemma_tail_kept(o, s, f, pos);
     if p >= 0 { lemma_byte_of_op(code(s)[p]); lemma_while_kept(o, s, f, pos, p); }
 }
+
+// C09: the operands of a binary operator are compiled in source order, except '<' and '<=' which are compiled as '>' / '>='
+// on the swapped operands
+pub open spec fn swapped(s: Seq<char>) -> bool { s == "<"@ || s == "<="@ }
+pub open spec fn binary_at(o: &Compiler, f: &Compiler, b: BinaryExpr, p: int) -> bool {
+    code(o).len() <= p && p <= sc(f).last_ins.position && sc(f).last_ins.position < code(f).len()
+        && emitted_by(if swapped(b.operator@) { *b.right } else { *b.left }, seg(f, code(o).len() as int, p))
+        && emitted_by(if swapped(b.operator@) { *b.left } else { *b.right }, seg(f, p, sc(f).last_ins.position as int))
+}
+pub open spec fn binary_shape(o: &Compiler, f: &Compiler, b: BinaryExpr) -> bool { exists|p: int| #[trigger] binary_at(o, f, b, p) }
+pub broadcast proof fn lemma_seg_kept(a: &Compiler, b: &Compiler, x: int, y: int)
+    requires #[trigger] ext0(a, b), 0 <= x <= y <= code(a).len()
+    ensures #[trigger] seg(b, x, y) == seg(a, x, y)
+{
+    assert forall|i: int| 0 <= i < code(a).len() implies code(b)[i] == code(a)[i] by { assert(code(b).subrange(0, code(a).len() as int)[i] == code(b)[i]); }
+    assert(seg(b, x, y) =~= seg(a, x, y));
+}
